@@ -51,7 +51,10 @@ impl Trie {
         input: &'a [char],
     ) -> impl Iterator<Item = TrieMatch> + 'a {
         self.da
-            .common_prefix_search(input.iter().cloned())
+            // U+0000 is the end marker of the double array: no key contains it, and
+            // feeding it to the search would follow the end-marker transition and report
+            // a word one character too long.
+            .common_prefix_search(input.iter().cloned().take_while(|&c| c != crawdad::END_MARKER))
             .map(move |(value, end_char)| TrieMatch::new(value, end_char))
     }
 }
